@@ -2,7 +2,7 @@
    non-vacuity examples and the witnesses of the known findings F3, F4, F5 (the model reproduces
    what the real crate does; the same scenarios + schedules are replayed on the real code by the
    checks, corpus/*_known_*.txt). *)
-From RS Require Import Base Channel Pipeline Selector Script World Instance Hist WorldSubs WorldSids WorldForward.
+From RS Require Import Base Channel Pipeline Selector Script World Instance Hist WorldSubs WorldSids WorldForward WorldRegistered.
 
 Definition sc0 : scripts := mkScripts [mkRscript 0%N true []] [] [].
 Definition cfg0 := script_config sc0 16 Block.
@@ -117,3 +117,17 @@ Proof. vm_compute. eexists _, _. repeat split. Qed.
 Example iterator_program_distinct :
   distinct_regs [[CIter 1%N 1 Block; CDispatch EStoreImpl 1%N; CDispatch EStoreImpl 2%N; CDispatch EStoreImpl 3%N; CNext 1%N]].
 Proof. unfold distinct_regs. cbn. constructor; [intros []|constructor]. Qed.
+
+(* ---- non-vacuity of C03_whole_run_subscriber_in_every_snapshot / C09_notified_while_registered:
+   a subscriber added at run time before two dispatches is live at both snapshots ---- *)
+Definition w_reg := scenario_world sc0 16 Block [0%N] [] []
+  [[CAddSubscriber 7%N; CDispatch EStoreImpl 1%N; CDispatch EStoreImpl 2%N]].
+Fixpoint live_at_snapshots (sid : N) (h : list (event (State := sstate))) : list bool :=
+  match h with
+  | [] => []
+  | ESnapshot _ _ _ :: r => reg_live sid r :: live_at_snapshots sid r
+  | _ :: r => live_at_snapshots sid r
+  end.
+Example registered_subscriber_exists :
+  live_at_snapshots 7%N (w_hist (drive 400 w_reg)) = [true; true].
+Proof. vm_compute. reflexivity. Qed.
